@@ -87,6 +87,15 @@ Theorem c11_lock_order_acyclic : lock_order_acyclic shim_lock_facts = true.
 Proof. vm_compute. reflexivity. Qed.
 Print Assumptions c11_lock_order_acyclic.
 
+(** Every signer Signers hands out carries the server itself as its agent: a
+    signature made with it later is a Sign / SignWithFlags call on the server
+    (table above: exclusive lock), not a request written to the shared
+    connection behind the server's back. *)
+Theorem c11_signers_through_server :
+  forallb (fun b : bool => b) signers_handed_out_via_server = true /\ signers_handed_out_via_server <> [].
+Proof. vm_compute. split; [reflexivity | discriminate]. Qed.
+Print Assumptions c11_signers_through_server.
+
 (** The eleven operation kinds of the property (and Close) are in the table, *)
 (* each takes the mutex itself or delegates to a method that takes it *)
 (* exclusively. *)
